@@ -208,7 +208,9 @@ class World(object):
             exec('def %s(ctx, a, o, arr, rep):\n    _w.calls.append((%r, a, o, arr, rep))\n    return "ok"\n' % (name, name), env)
             methods[name] = rpc(cls, obj, arr, rep, _returns=P.Unicode)(env[name])
         # the plain method of the transport / byte-level parts
-        exec('def echo(ctx, s, n):\n    _w.calls.append(("echo", s, n))\n    return s\n', env)
+        self.boom = None
+        exec('def echo(ctx, s, n):\n    _w.calls.append(("echo", s, n))\n    if _w.boom is not None:\n        raise _w.boom\n'
+             '    return s\n', env)
         methods['echo'] = rpc(P.Unicode, P.Integer, _returns=P.Unicode)(env['echo'])
         self.service = type('LeafSvc', (ServiceBase,), methods)
 
@@ -642,34 +644,38 @@ def _resolve(expr, module):
 
 
 def classify_handler(h, module):
-    """(class names, action) of one except clause"""
+    """(set of caught class names, what the clause ends in) of one except clause.  Only the resolved classes of the clause
+    (tuples flattened, bare `except` = BaseException) and three facts about its body count, wherever and in whatever order
+    they are written: it builds a Fault (sub)class with a literal code / a CODE attribute (`wrap`), it hands the caught
+    exception on as the error (`keep`), it calls the parser again (`retry`)."""
     from spyne.model.fault import Fault
-    classes = [c.__name__ for c in _resolve(h.type, module)]
-    action = None
-    for node in ast.walk(ast.Module(body=h.body, type_ignores=[])):
-        fault_call = None
-        if isinstance(node, ast.Raise) and isinstance(node.exc, ast.Call):
-            fault_call = node.exc
-        elif isinstance(node, ast.Assign) and any(isinstance(t, ast.Attribute) and t.attr in ('in_error', 'out_error')
-                                                   for t in _flat_targets(node)):
-            if isinstance(node.value, ast.Call):
-                fault_call = node.value
-            elif isinstance(node.value, ast.Name) and node.value.id == h.name and action is None:
-                action = ('keep',)
-        if fault_call is not None and action is None:
+    classes = sorted({c.__name__ for c in _resolve(h.type, module)})
+    body = ast.Module(body=h.body, type_ignores=[])
+    codes, keeps, retries = [], False, False
+    for node in ast.walk(body):
+        if isinstance(node, ast.Call):
+            if _call_name(node) in PARSER_CALLS:
+                retries = True
             try:
-                cls = _resolve(fault_call.func, module)[0]
+                cls = _resolve(node.func, module)[0]
             except Exception:
                 cls = None
             if isinstance(cls, type) and issubclass(cls, Fault):
                 code = getattr(cls, 'CODE', None)
-                if code is None and fault_call.args and isinstance(fault_call.args[0], ast.Constant):
-                    code = fault_call.args[0].value
+                if code is None and node.args and isinstance(node.args[0], ast.Constant):
+                    code = node.args[0].value
                 if isinstance(code, str):
-                    action = ('wrap', code)
-    if action is None:
-        calls = [_call_name(n) for n in ast.walk(ast.Module(body=h.body, type_ignores=[])) if isinstance(n, ast.Call)]
-        action = ('retry',) if any(c in PARSER_CALLS for c in calls) else ('other',)
+                    codes.append(code)
+        elif isinstance(node, ast.Assign) and h.name and isinstance(node.value, ast.Name) and node.value.id == h.name:
+            keeps = True
+    if codes:
+        action = ('wrap', codes[0])
+    elif keeps:
+        action = ('keep',)
+    elif retries:
+        action = ('retry',)
+    else:
+        action = ('other',)
     return classes, action
 
 
@@ -680,14 +686,34 @@ def _flat_targets(assign):
     return out
 
 
-def chain_facts(rel, qualname, pred, modname):
+def _candidate_funcs(tree, qualname):
+    """the named function first, then the other methods of its class, then the module-level functions: the `try` that
+    guards a call is found wherever a refactoring has moved it within the class / module"""
+    parts = qualname.split('.')
+    out = []
+    try:
+        out.append(_find_func(tree, qualname))
+    except core.Infra:
+        pass
+    if len(parts) == 2:
+        for n in ast.iter_child_nodes(tree):
+            if isinstance(n, ast.ClassDef) and n.name == parts[0]:
+                out += [m for m in ast.iter_child_nodes(n) if isinstance(m, ast.FunctionDef) and m not in out]
+    out += [n for n in ast.iter_child_nodes(tree) if isinstance(n, ast.FunctionDef) and n not in out]
+    return out
+
+
+def chain_facts(rel, qualname, pred, modname, also=None):
+    """handler lists of the `try` chain around the first call satisfying `pred`; with `also`, a second predicate looked for
+    in the SAME function (-> pair of chains)"""
     import importlib
     module = importlib.import_module(modname)
-    func = _find_func(_spyne_ast(rel), qualname)
-    ch = try_chain(func, pred)
-    if ch is None:
-        return None
-    return [[classify_handler(h, module) for h in t.handlers] for t in ch]
+    read = lambda ch: None if ch is None else [[classify_handler(h, module) for h in t.handlers] for t in ch]
+    for func in _candidate_funcs(_spyne_ast(rel), qualname):
+        ch = try_chain(func, pred)
+        if ch is not None:
+            return read(ch) if also is None else (read(ch), read(try_chain(func, also)))
+    return None if also is None else (None, None)
 
 
 def is_call(*names):
@@ -882,11 +908,13 @@ def measure_facts(W):
     f = OrderedDict()
     witness = {}
     # (a) except clauses
-    f['genContexts'] = chain_facts('server/_base.py', 'ServerBase.generate_contexts', is_call('create_in_document'),
-                                   'spyne.server._base')
-    f['getInObject'] = chain_facts('server/_base.py', 'ServerBase.get_in_object', is_call('deserialize'), 'spyne.server._base')
-    f['processRequest'] = chain_facts('application.py', 'Application.process_request', is_call('call_wrapper'), 'spyne.application')
-    f['wsgiOutString'] = chain_facts('server/wsgi.py', 'WsgiApplication.handle_rpc', is_call('get_out_string'), 'spyne.server.wsgi')
+    # (a) the `try` statements of the server around the stages: MEASURED by injecting exceptions at the stages; the `ast`
+    #     reading of the same statements is a cross-check that is recorded, never used by the proof
+    measured, detail = measure_stage_handlers(W)
+    f['stageDetail'] = detail
+    for name in STAGE_SITES:
+        f[name] = [measured[name]]
+    f['astCrossCheck'] = ast_cross_check(measured)
     f['parseChain'], f['decodeChain'], f['raisable'], f['textInput'], f['raisableText'] = {}, {}, {}, {}, {}
     for proto, site in PROTO_SITES.items():
         if site is None:
@@ -894,8 +922,8 @@ def measure_facts(W):
             f['raisableText'][proto] = []
             continue
         rel, qn, modname, names = site
-        f['parseChain'][proto] = chain_facts(rel, qn, is_call(*names), modname) or []
-        dc = chain_facts(rel, qn, is_decode_call, modname)
+        pc, dc = chain_facts(rel, qn, is_call(*names), modname, also=is_decode_call)
+        f['parseChain'][proto] = pc or []
         f['decodeChain'][proto] = dc or []
         f['textInput'][proto] = dc is not None
         f['raisable'][proto] = [exc_json(c) for c in raisable_classes(proto, dc is not None)]
@@ -1584,11 +1612,13 @@ def report_fact_findings(ctx, W, f):
             ctx.hit('fact-bad:pre-reject')
             ctx.finding('c10:transport-answer:%s:%s:%s' % (key[0], d[1], d[2]),
                         'transport class %s is answered with fault %s / HTTP %s' % ('/'.join(key), d[1], d[2]), rp)
-    for name in ('genContexts', 'getInObject', 'processRequest', 'wsgiOutString'):
-        ch = f[name]
-        hs = ch[0] if ch else []
+    for name in STAGE_SITES:
+        hs = f[name][0]
         if not any('Exception' in c and a[0] in ('keep', 'wrap') for c, a in hs):
-            ctx.hit('fact-bad:' + name)     # the concrete failing input comes from the parts below
+            ctx.hit('fact-bad:' + name)     # a concrete failing input, if there is one, comes from the parts below
+    for name, cc in f['astCrossCheck'].items():
+        if not cc.get('agree', True):
+            ctx.hit('ast-cross-check-differs:' + name)
 
 
 def run(ctx):
@@ -1610,7 +1640,7 @@ def run(ctx):
     ctx.facts10 = f
     ctx.write_generated('Facts10.lean', facts_lean(f))
     ctx.cov['facts10'] = {k: f[k] for k in ('genContexts', 'getInObject', 'processRequest', 'wsgiOutString', 'parseChain', 'decodeChain',
-                                            'statusPlain', 'statusSoap', 'okStatus')}
+                                            'statusPlain', 'statusSoap', 'okStatus', 'stageDetail', 'astCrossCheck')}
     ctx.cov['facts10']['raisable'] = {p: [e['name'] for e in l] for p, l in f['raisable'].items()}
     ctx.cov['facts10']['preTable'] = {'/'.join(k): list(d) for k, d in zip(pre_keys(), f['preTable']) if d[0] != 'proceed'}
     report_fact_findings(ctx, W, f)
@@ -1744,3 +1774,114 @@ def replay_own(ctx, obj):
     if not bad:
         print('T3   : the property holds on this case')
     return 1 if bad else 0
+
+
+# ====================================================================================== measured try-sites of the server
+class ProbeError(Exception):
+    """a class the code under test has never heard of: caught only by `except Exception` / `except BaseException` / bare"""
+
+
+PROBE_FAULT = 'Client.Probe10'
+PROBE_CLASSES = [ValueError, TypeError, KeyError, AttributeError, LookupError, RecursionError, AssertionError, ArithmeticError,
+                 RuntimeError, OSError]
+STAGE_SITES = OrderedDict([
+    # fact -> (ast site: file, function, guarded call, module), injection points
+    ('genContexts', (('server/_base.py', 'ServerBase.generate_contexts', 'create_in_document', 'spyne.server._base'),
+                     [('in', 'create_in_document'), ('in', 'decompose_incoming_envelope'), ('in', 'generate_method_contexts')])),
+    ('getInObject', (('server/_base.py', 'ServerBase.get_in_object', 'deserialize', 'spyne.server._base'), [('in', 'deserialize')])),
+    ('processRequest', (('application.py', 'Application.process_request', 'call_wrapper', 'spyne.application'), [('user', None)])),
+    ('wsgiOutString', (('server/wsgi.py', 'WsgiApplication.handle_rpc', 'get_out_string', 'spyne.server.wsgi'),
+                       [('out', 'serialize'), ('out', 'create_out_string')])),
+])
+
+
+def _inject(W, s, where, method, exc, transport):
+    """one valid `echo` request with `exc` raised at the injection point (an attribute on the protocol INSTANCE / the user
+    function); -> ('escape', class) | ('code', faultcode) | ('ok',)"""
+    app = s['app']
+    target = {'in': app.in_protocol, 'out': app.out_protocol}.get(where)
+    data = W.echo_request(s['proto'])
+    if where == 'user':
+        W.boom = exc
+    else:
+        real = getattr(target, method)
+
+        def raiser(*a, **k):
+            delattr(target, method)         # once: the fault document that follows is written by the real method
+            raise exc
+        setattr(target, method, raiser)
+    try:
+        if transport == 'wsgi':
+            r = run_wsgi(W, s, base_environ(s['proto'], data))
+        else:
+            r = run_base(W, s, data)
+    finally:
+        W.boom = None
+        if where != 'user' and method in vars(target):
+            delattr(target, method)
+    if r.kind == 'escape':
+        return ('escape', r.exc)
+    if r.kind == 'fault':
+        return ('code', r.code)
+    return ('ok',)
+
+
+def measure_stage_handlers(W):
+    """per try-site of the server: the handler list that its observed behaviour amounts to.  A spyne Fault with a code of its
+    own, an exception of a class the code has never seen (`ProbeError`) and ten builtin classes are raised at every stage the
+    statement guards; what comes out (the same fault / another code / the exception itself) is the fact."""
+    from spyne.model.fault import Fault
+    s = W.server('json', None)
+    res, detail = {}, {}
+    for name, (site, points) in STAGE_SITES.items():
+        transport = 'wsgi' if name == 'wsgiOutString' else 'base'
+
+        def outcome(mk):
+            outs = {_inject(W, s, where, method, mk(), transport) for where, method in points}
+            return outs.pop() if len(outs) == 1 else ('mixed', sorted(map(str, outs)))
+        hs = []
+        o = outcome(lambda: Fault(PROBE_FAULT, 'probe'))
+        detail[name + ':Fault'] = o
+        if o[0] == 'code':
+            hs.append((['Fault'], ('keep',) if o[1] == PROBE_FAULT else ('wrap', o[1] or 'None')))
+        elif o[0] != 'escape':
+            hs.append((['Fault'], ('other',)))
+        generic = outcome(lambda: ProbeError('probe'))
+        detail[name + ':ProbeError'] = generic
+        for cls in PROBE_CLASSES:
+            o = outcome(lambda: cls('probe'))
+            if o != generic:
+                detail['%s:%s' % (name, cls.__name__)] = o
+                if o[0] == 'code':
+                    hs.append(([cls.__name__], ('wrap', o[1] or 'None')))
+                elif o[0] != 'escape':
+                    hs.append(([cls.__name__], ('other',)))
+                else:
+                    # this class gets through although the unknown class does not: a clause that re-raises it
+                    hs.append(([cls.__name__], ('other',)))
+        if generic[0] == 'code':
+            hs.append((['Exception'], ('wrap', generic[1] or 'None')))
+        elif generic[0] != 'escape':
+            hs.append((['Exception'], ('other',)))
+        res[name] = hs
+    return res, {k: list(v) for k, v in detail.items()}
+
+
+def ast_cross_check(measured):
+    """the same statements read with `ast`: only the SET of classes each one catches (clauses flattened); compared with
+    the measurement on `Fault` and on the catch-all.  A difference is recorded in the evidence; it breaks nothing."""
+    out = {}
+    for name, (site, _) in STAGE_SITES.items():
+        rel, qn, call, modname = site
+        try:
+            ch = chain_facts(rel, qn, is_call(call), modname)
+        except Exception as e:
+            ch = None
+            out[name] = {'ast': 'unreadable: %s' % type(e).__name__}
+            continue
+        classes = sorted({c for t in (ch or []) for cl, _ in t for c in cl})
+        m = sorted({c for cl, _ in measured[name] for c in cl})
+        all_ast = bool({'Exception', 'BaseException'} & set(classes))
+        all_measured = 'Exception' in m
+        out[name] = {'ast_classes': classes, 'measured': m, 'agree': all_ast == all_measured}
+    return out
